@@ -11,7 +11,7 @@ Set Warnings "-notation-overridden,-ambiguous-paths".
 From mathcomp Require Import all_ssreflect all_algebra all_real_closed.
 From mathcomp Require Import ssrZ.
 Set Warnings "notation-overridden,ambiguous-paths".
-From LP Require Import UPolySpec RefAlgSpec RefAlgLoops RefAlgOps RefAlgDet RefAlgAnn RefAlgArith RefAlgSqfree RefAlgFinal.
+From LP Require Import UPolySpec RefAlgSpec RefAlgLoops RefAlgOps RefAlgDet RefAlgAnn RefAlgArith RefAlgSqfree RefAlgFinal RefAlgRoots.
 Import GRing.Theory Num.Theory.
 Local Open Scope ring_scope.
 
@@ -272,3 +272,23 @@ Theorem Base_rn_valid_denotes : forall (R : rcfType) (x : rnum),
   rn_valid x = true -> exists v : R, rn_denotes (rn_norm x) v.
 Proof. exact: rn_valid_denotes. Qed.
 Print Assumptions Base_rn_valid_denotes.
+
+(* all real roots of a non-zero polynomial by the reference (psqfree, Cauchy bound root_bound, Sturm counts on half-open
+   intervals, bisection, rational roots hit by a midpoint split off by exact division): the answer denotes, element by
+   element (dens), the increasing list rootsR of ALL roots of p in R *)
+Theorem Base_root_bound : forall (R : rcfType) (p : seq Z) (w : R),
+  Poly p != 0 :> {poly Z} -> root (pr p) w -> `|w| < zr (root_bound p).
+Proof. exact: root_bound_lt. Qed.
+Print Assumptions Base_root_bound.
+
+Theorem Base_rn_isolate : forall (R : rcfType) (fuel : nat) (p : seq Z) (lo hi : Z * Z) (rs : seq rnum),
+  Poly p != 0 :> {poly Z} -> coprimep (@pr R p) (@pr R p)^`() -> qpos lo -> qpos hi -> @qr R lo < qr hi ->
+  (@pr R p).[qr lo] != 0 -> rn_isolate fuel p lo hi = Some rs ->
+  exists2 vs : seq R, dens rs vs & isolated p (qr lo) (qr hi) vs.
+Proof. exact: rn_isolate_spec. Qed.
+Print Assumptions Base_rn_isolate.
+
+Theorem Base_rn_roots : forall (R : rcfType) (fuel : nat) (p : seq Z) (rs : seq rnum),
+  Poly p != 0 :> {poly Z} -> rn_roots fuel p = Some rs -> dens rs (rootsR (@pr R p)).
+Proof. exact: rn_roots_correct. Qed.
+Print Assumptions Base_rn_roots.
